@@ -530,6 +530,33 @@ def ops_from_steps(steps):
     return ops
 
 
+def read_behaviours(prefix):
+    """The files written by -simulate file=<prefix>, reduced to what the driver needs: the model's `act`
+    of every state and `s` (the constants in force) of the first one.  (tlc.read_sim_traces parses every
+    variable of every state, which costs more than generating and driving the behaviours together.)"""
+    import glob
+
+    from harness import tlaval
+
+    out = []
+    files = sorted(glob.glob(prefix + "_*"), key=lambda f: [int(x) for x in re.findall(r"\d+", _os.path.basename(f))])
+    for f in files:
+        text = open(f).read()
+        parts = re.split(r"^STATE_(\d+) ==", text, flags=re.M)
+        beh = []
+        for k in range(1, len(parts), 2):
+            body = parts[k + 1]
+            st = {}
+            for var in ("act", "s") if k == 1 else ("act",):
+                m = re.search(r"^/\\ %s = " % var, body, flags=re.M)
+                if m is None:
+                    raise MachineryError("simulated behaviour %s: state %s without %s" % (f, parts[k], var))
+                st[var], _ = tlaval.parse_prefix(body, m.end())
+            beh.append(("?", st))
+        out.append(beh)
+    return out
+
+
 def schedules_from_behaviours(behs):
     out = []
     for beh in behs:
@@ -866,12 +893,13 @@ def work(rep, args):
         t0 = _time.time()
         static_results = run_all(static)
         phases["driving_the_implementation"] = round(_time.time() - t0, 1)
+        phases["static_schedules_driven_at"] = round(_time.time() - t_start, 1)
         ths_sim.join()
         sim = box.get("sim")
         if sim is None:
             raise MachineryError("SeqPersist simulation did not run")
         tlc.need_ok_run(sim, "SeqPersist simulation")
-        behaviours = tlc.read_sim_traces(_os.path.join(simdir, "tr"))
+        behaviours = read_behaviours(_os.path.join(simdir, "tr"))
         phases["simulation"] = round(sim.wall, 1)
         scheds = schedules_from_behaviours(behaviours)
         n_sim = len(scheds)
@@ -882,12 +910,14 @@ def work(rep, args):
         phases["driving_the_implementation"] = round(phases["driving_the_implementation"] + _time.time() - t0, 1)
         scheds += static
         results += static_results
+        phases["all_schedules_driven_at"] = round(_time.time() - t_start, 1)
         for s, res in zip(scheds, results):
             if "error" in res:
                 raise MachineryError("driver failed on schedule %s\n%s" % (json.dumps(s)[:600], res["error"]))
         t0 = _time.time()
         validated, ndrift = validate_and_report(rep, wd, scheds, results)
         phases["trace_validation"] = round(_time.time() - t0, 1)
+        phases["traces_validated_at"] = round(_time.time() - t_start, 1)
         for th in ths:
             th.join()
         mcs = box["mc"]
